@@ -203,7 +203,9 @@ class World:
 
     # -- helpers
     def file(self, f):
-        return str(self.dir / f"{f}.npz")
+        # a deliberately non-canonical spelling of the archive path (the same file under "/./"): results
+        # must not depend on how the client spells the path
+        return str(self.dir) + "/./" + f"{f}.npz"
 
     def canon_fid(self, arr, prev=None):
         s = sha(arr)
